@@ -116,6 +116,8 @@ func run(seed int64, n int, dir string, _ []string) {
 		o.Law("set_datetime_format_error", err.Error())
 	}
 
+	sortValueOf(g, o, pr, 6*n)
+
 	tables := n / 12
 	if tables < 5 {
 		tables = 5
@@ -476,4 +478,51 @@ func litInt(i int) string {
 		return fmt.Sprintf("(-%d)", -i)
 	}
 	return strconv.Itoa(i)
+}
+
+// sortValueOf: NewSortValue itself — the type it decides on and every field it stores (the integer, its float image,
+// the text a number keeps for the comparison with a string, the datetime's nanoseconds, the boolean) — against the
+// model's toSortVal, for values of every class and kind.
+func sortValueOf(g *hc.Gen, o *hc.Out, pr *hc.Proc, n int) {
+	flags := pr.P.Tx.Flags
+	for k := 0; k < n; k++ {
+		var v value.Primary
+		switch g.Intn(12) {
+		case 0:
+			v = value.NewInteger(g.Int64())
+		case 1:
+			v = value.NewFloat(g.Float64())
+		case 2:
+			v = value.NewBoolean(g.Intn(2) == 0)
+		case 3:
+			v = value.NewTernaryFromString(g.Pick("TRUE", "FALSE", "UNKNOWN"))
+		case 4:
+			v = value.NewDatetime(time.Unix(int64(g.Intn(4000000000))-1000000000, int64(g.Intn(3))*500000000).UTC())
+		case 5:
+			v = value.NewString(g.Pick("1", " 2 ", "+3", "-0", "0x10", "1e3", "1_000", "2.50", " nan", "Inf", "-inf", "true", "F", " t ", "abc", " Abc ", "", " ", "2012-02-03", "2012-02-03 04:05:06", "2012-02-03T04:05:06Z", "Feb 3, 2012", "straße", "ǆ"))
+		default:
+			v = colVal(g, []int{kNum, kDate, kText, kMixedBig, kBigInt, kDateFmt}[g.Intn(6)])
+		}
+		sv := query.NewSortValue(v, flags)
+		var got string
+		switch sv.Type {
+		case query.NullType:
+			got = "N"
+		case query.IntegerType:
+			got = fmt.Sprintf("I %d %s x%s", sv.Integer, hc.EncF(sv.Float), hc.Hex(sv.String))
+		case query.FloatType:
+			got = fmt.Sprintf("F %s x%s", hc.EncF(sv.Float), hc.Hex(sv.String))
+		case query.DatetimeType:
+			got = fmt.Sprintf("D %d", sv.Datetime)
+		case query.BooleanType:
+			got = fmt.Sprintf("B %d", sv.Integer)
+		case query.StringType:
+			got = "S x" + hc.Hex(sv.String)
+		default:
+			got = fmt.Sprintf("?%d", sv.Type)
+		}
+		o.Case("c07.sv "+cellTok(v), got)
+		o.NonTrivial("sv:" + got[:1] + hc.EncVal(v)[:1])
+		o.Count("sv:" + got[:1])
+	}
 }
